@@ -2,16 +2,38 @@
    ancillas.  Statements only; every proof is [exact <lemma>].
 
    What is proved here (for all circuits, all mode numbers, all histories of the
-   parent): the user-mode numbering (user mode u = the u-th non-ancilla mode,
-   order preserving, never an ancilla), the acceptance rule of add (an addition
-   is accepted exactly when it fits into the non-ancilla modes from there on,
-   otherwise ModeRangeError), and that components appended later act as the
-   identity on every ancilla.  The matrix-level wiring statement of DESIGN C02
-   (U_R = E . iota(U_P)) is NOT proved in Coq; it is decided on every run by
-   the correspondence (model of the repaired Circuit.add = implementation) and
-   by the independent wiring reference in harness/c02.py. *)
+   parent):
+   * the user-mode numbering (user mode u = the u-th non-ancilla mode, order
+     preserving, never an ancilla), the acceptance rule of add (an addition is
+     accepted exactly when it fits into the non-ancilla modes from there on,
+     otherwise ModeRangeError), and that components appended later act as the
+     identity on every ancilla;
+   * the MATRIX-LEVEL WIRING THEOREM of DESIGN "### C02" (Spec), in full generality
+     (lossy parent and sub-circuit, parent ancillas inside the added span, heralds
+     with input mode <> output mode, any declaration order, grouped or not):
+       C02_aem_compile          compiling add_empty_mode_to_circuit_spec = inserting an
+                                identity row/column (loss modes shifted by one)
+       C02_shift_compile        compiling add_modes_to_circuit_spec = embedding as a block
+       C02_compile_onto         compiling onto a state = (compiling onto the identity) . state
+       C02_complete_swaps_spec  the swap-completion loop denotes the permutation that sends
+                                each herald output mode to its input mode and is order
+                                preserving on the other modes
+       C02_add_wiring           U_R = E . iota(U_P) with explicit index maps old, loc,
+                                phi_in, phi_out (clauses (1)-(3) of the Spec); its conclusion
+                                re-establishes its hypotheses on the result, so it applies at
+                                any nesting depth
+     with a non-vacuity example over the rationals (parent ancilla inside the span,
+     herald entering on mode 0 and leaving on mode 2, losses in both circuits) on which
+     the conclusion is also recomputed entry by entry from a hand-written wiring.
+   Not proved in Coq: the Fock-space amplitude composition (T2 add_amplitudes); it is
+   covered by the independent amplitude oracle of harness/c02.py.  The tie of the model
+   of Circuit.add to the implementation is the correspondence run of this check. *)
 From Coq Require Import ZArith List Bool Arith Lia.
 From LW Require Import Base.Sx Base.Num Base.Mat Model.Circuit Proofs.CircuitP Proofs.AddP.
+From LW Require Import Base.QI2 Model.Display Proofs.CompileP Proofs.DisplayP
+     Proofs.WiringDefs Proofs.WiringMat Proofs.WiringSwaps Proofs.WiringP.
+From Coq Require Import QArith Qcanon Permutation.
+Local Open Scope nat_scope.
 Import ListNotations.
 
 (* user mode z is mapped to the z-th mode that is not an ancilla: the result is
@@ -78,3 +100,224 @@ Print Assumptions C02_components_identity_off_their_modes.
 Example C02_map_mode_nonvacuous :
   map_mode [1; 3] 0 = 0%Z /\ map_mode [1; 3] 1 = 2%Z /\ map_mode [1; 3] 2 = 4%Z /\ NoDup [1; 3].
 Proof. repeat split; repeat constructor; simpl; intuition; discriminate. Qed.
+
+(* ====================================================================== *)
+(* The matrix-level wiring theorem (DESIGN "### C02", Spec)                *)
+(* ====================================================================== *)
+(* [swnd c]: the swap dictionaries of c have no duplicate keys (they are Python dicts);
+   [cwf n c] (DisplayP): the modes of c lie inside [0,n);  [WFH c] (DisplayP): the
+   invariant of every circuit an API program can build (C19_reachable...): components inside
+   the circuit, herald dictionaries with distinct keys inside the circuit, ancilla list
+   duplicate free.  [bump t x = if t <=? x then S x else x] is the index map of inserting
+   one mode at t. *)
+
+(* Layer 1: compile commutes with mode insertion.  The matrix of the spec with an empty
+   mode inserted at [mode] is the old matrix with an identity row/column inserted there;
+   loss modes (appended after the circuit modes) move up by one with everything else. *)
+Theorem C02_aem_compile :
+  forall (K : Type) (o : ops K) (SRK : StarRing o) (e : env (K:=K)) (mode : nat) (sp : list (comp (K:=K)))
+         (n nl : nat) (U : mat (K:=K*K)),
+    Forall swnd sp -> mode <= n ->
+    cadd_list o e sp (Ok (n, mid (co o))) = Ok (nl, U) ->
+    exists U', cadd_list o e (aem_spec o mode sp) (Ok (S n, mid (co o))) = Ok (S nl, U') /\
+               (forall i j, i < nl -> j < nl -> U' (bump mode i) (bump mode j) = U i j) /\
+               (forall x, x < S nl -> U' mode x = mid (co o) mode x /\ U' x mode = mid (co o) x mode).
+Proof. exact (fun K o SRK => @aem_compile K o SRK). Qed.
+Print Assumptions C02_aem_compile.
+
+(* Layer 2: compiling the spec offset by d into N >= d + n modes gives the n-mode
+   compilation as a block at offset d, identity elsewhere; its l loss modes follow the N modes. *)
+Theorem C02_shift_compile :
+  forall (K : Type) (o : ops K) (SRK : StarRing o) (e : env (K:=K)) (d n N l : nat) (sp : list (comp (K:=K)))
+         (U : mat (K:=K*K)),
+    Forall (cwf n) sp -> Forall swnd sp -> d + n <= N ->
+    cadd_list o e sp (Ok (n, mid (co o))) = Ok (n + l, U) ->
+    let f := fun i => if i <? n then i + d else i - n + N in
+    exists M, cadd_list o e (shift_spec d sp) (Ok (N, mid (co o))) = Ok (N + l, M) /\
+              (forall i j, i < n + l -> j < n + l -> M (f i) (f j) = U i j) /\
+              (forall x y, x < N + l -> y < N + l -> (forall i, i < n + l -> f i <> x) ->
+                           M x y = mid (co o) x y /\ M y x = mid (co o) y x).
+Proof. exact (fun K o SRK => @shift_compile K o SRK). Qed.
+Print Assumptions C02_shift_compile.
+
+(* compiling a spec after a state U = the matrix of the spec compiled alone, times the padded state *)
+Theorem C02_compile_onto :
+  forall (K : Type) (o : ops K) (SRK : StarRing o) (e : env (K:=K)) (sp : list (comp (K:=K)))
+         (n : nat) (U : mat (K:=K*K)) (n2 : nat) (M : mat (K:=K*K)),
+    cadd_list o e sp (Ok (n, mid (co o))) = Ok (n2, M) ->
+    exists UR, cadd_list o e sp (Ok (n, U)) = Ok (n2, UR) /\
+               meq n2 UR (mmul (co o) n2 M (pad (co o) n U)).
+Proof. exact (fun K o SRK => @cadd_list_onto K o SRK). Qed.
+Print Assumptions C02_compile_onto.
+
+(* Layer 3: the completed swap dictionary is a permutation of [0,n) that returns the k-th
+   herald from its output mode to its input mode and maps the remaining modes to the
+   remaining modes in ascending order. *)
+Theorem C02_complete_swaps_spec :
+  forall (n : nat) (outs ins : list nat),
+    NoDup outs -> NoDup ins -> length outs = length ins ->
+    (forall x, In x outs -> x < n) -> (forall x, In x ins -> x < n) ->
+    let sw := complete_swaps n 0 (dict_of (combine outs ins)) 0 [] in
+    wf_swaps n sw /\
+    (forall k, k < length outs -> swap_fun sw (nth k outs 0) = nth k ins 0) /\
+    (forall i, i < n -> ~ In i outs -> swap_fun sw i < n /\ ~ In (swap_fun sw i) ins) /\
+    (forall i j, i < j -> j < n -> ~ In i outs -> ~ In j outs -> swap_fun sw i < swap_fun sw j) /\
+    (forall i, n <= i -> swap_fun sw i = i).
+Proof. exact complete_swaps_spec. Qed.
+Print Assumptions C02_complete_swaps_spec.
+
+(* Layer 4: the wiring theorem, general case.
+   Parent c: nP modes, ancillas c_int c, lP loss elements, compiled matrix UP.
+   Sub-circuit sub: nS modes, h heralds (k-th declared: input mode ins[k], output mode outs[k],
+   photon number = value in c_in sub), lS loss elements, compiled matrix US.
+   If add is accepted at user mode [mode] (full mode m, the first of the visible modes
+   [visible_from nP (c_int c) m] = the non-ancilla parent modes from m on, ascending), then
+   the result has nR = nP + h modes and compiles to dimension nR + lP + lS, and there are
+     old     : order-preserving injection [0,nP) -> [0,nR), extended to P's loss modes by
+               nP + l |-> nR + l (fixing every mode below m),
+     loc     : injection of the herald indices [0,h) into [0,nR) minus the image of old,
+     phi_in  : sub's input modes -> result modes: herald input ins[k] |-> loc k, the j-th
+               non-herald input mode (ascending) |-> old (j-th visible parent mode from m),
+               S's loss mode nS + l |-> nR + lP + l,
+     phi_out : likewise for outputs (outs[k] |-> loc k, j-th non-herald output |-> the same
+               old (vis[j])), with the same image as phi_in,
+   such that
+   (1) the ancillas of the result are old(ancillas of c) together with the loc k; the herald
+       dictionaries are the old ones transported by old followed by (loc k |-> photons of
+       herald k) on input AND output;
+   (2) U_R = E . iP on the full dimension, where iP carries UP along old and is the identity
+       elsewhere (in particular on every loc k), and E[phi_out i, phi_in j] = US[i,j], E = identity
+       outside the common image W of phi_in/phi_out; no old ancilla old(i), i in c_int c,
+       lies in W — so every ancilla of the parent, inside the added span or not, passes
+       straight through E;
+   (3) the loss modes of P (nR .. nR+lP-1) and then of S (nR+lP ..) follow in creation order.
+   The last two conjuncts re-establish the hypotheses for the result. *)
+Theorem C02_add_wiring :
+  forall (K : Type) (o : ops K) (SRK : StarRing o) (e : env (K:=K)) (c sub c' : circ (K:=K)) (mode : Z) (g : bool)
+         (lP : nat) (UP : mat (K:=K*K)) (lS : nat) (US : mat (K:=K*K)),
+    WFH c -> WFH sub -> 1 <= c_n sub ->
+    Forall swnd (c_spec c) -> Forall swnd (c_spec sub) ->
+    length (c_in sub) = length (c_out sub) ->
+    op_add o c sub mode g = Ok c' ->
+    build o e c = Ok (c_n c + lP, UP) -> build o e sub = Ok (c_n sub + lS, US) ->
+    let nP := c_n c in let nS := c_n sub in let h := length (c_in sub) in let nR := nP + h in
+    let ins := dkeys (c_in sub) in let outs := dkeys (c_out sub) in
+    exists (m : nat) (old loc phi_in phi_out : nat -> nat) (UR E iP : mat (K:=K*K)),
+      mode_ok c (map_mode (c_int c) mode) = Ok m /\ m < nP /\ ~ In m (c_int c) /\
+      c_n c' = nR /\ build o e c' = Ok (nR + lP + lS, UR) /\
+      (forall a b, a < b -> old a < old b) /\ (forall i, i < nP -> old i < nR) /\
+      (forall l, old (nP + l) = nR + l) /\ (forall i, i < m -> old i = i) /\
+      (forall k, k < h -> loc k < nR /\ forall i, old i <> loc k) /\
+      (forall k k', k < h -> k' < h -> loc k = loc k' -> k = k') /\
+      Permutation (c_int c') (map old (c_int c) ++ map loc (seq 0 h)) /\
+      c_in c' = map (fun kv => (old (fst kv), snd kv)) (c_in c) ++ map (fun kv => (phi_in (fst kv), snd kv)) (c_in sub) /\
+      c_out c' = map (fun kv => (old (fst kv), snd kv)) (c_out c) ++ map (fun kv => (phi_in (fst kv), snd kv)) (c_in sub) /\
+      (forall k, k < h -> phi_in (nth k ins 0) = loc k /\ phi_out (nth k outs 0) = loc k) /\
+      nS - h <= length (visible_from nP (c_int c) m) /\
+      (forall j, j < nS - h ->
+         phi_in (nth j (open_modes_of nS ins) 0) = old (nth j (visible_from nP (c_int c) m) 0) /\
+         phi_out (nth j (open_modes_of nS outs) 0) = old (nth j (visible_from nP (c_int c) m) 0)) /\
+      (forall l, phi_in (nS + l) = nR + lP + l /\ phi_out (nS + l) = nR + lP + l) /\
+      (forall i, i < nS + lS -> phi_in i < nR + lP + lS /\ phi_out i < nR + lP + lS) /\
+      (forall i j, i < nS + lS -> j < nS + lS -> (phi_in i = phi_in j -> i = j) /\ (phi_out i = phi_out j -> i = j)) /\
+      (forall i j, i < nS + lS -> j < nS + lS -> E (phi_out i) (phi_in j) = US i j) /\
+      (forall x y, x < nR + lP + lS -> y < nR + lP + lS -> (forall i, i < nS + lS -> phi_in i <> x) ->
+                   E x y = mid (co o) x y /\ E y x = mid (co o) y x) /\
+      (forall x, (forall i, i < nS + lS -> phi_in i <> x) <-> (forall i, i < nS + lS -> phi_out i <> x)) /\
+      (forall i, In i (c_int c) -> forall i', i' < nS + lS -> phi_in i' <> old i) /\
+      (forall i j, i < nP + lP -> j < nP + lP -> iP (old i) (old j) = UP i j) /\
+      (forall x y, x < nR + lP + lS -> y < nR + lP + lS -> (forall i, i < nP + lP -> old i <> x) ->
+                   iP x y = mid (co o) x y /\ iP y x = mid (co o) y x) /\
+      meq (nR + lP + lS) UR (mmul (co o) (nR + lP + lS) E iP) /\
+      WFH c' /\ Forall swnd (c_spec c').
+Proof. exact (fun K o SRK => @add_wiring K o SRK). Qed.
+Print Assumptions C02_add_wiring.
+
+(* every circuit whose swap dictionaries pass the validators of C01 satisfies [swnd] *)
+Theorem C02_swnd_from_validated :
+  forall (K : Type) (o : ops K) (SRK : StarRing o) (e : env (K:=K)) (N : nat) (c : comp (K:=K)),
+    wf (o:=o) e N c -> swnd c.
+Proof. exact (fun K o _ => @wf_swnd K o). Qed.
+Print Assumptions C02_swnd_from_validated.
+
+(* ---- non-vacuity over the rationals: reflectivity (3/5)^2, loss (4/5)^2 ---- *)
+Definition ex_e : env (K:=Qc) := fun _ => (Q2Qc 0%Q, Q2Qc 0%Q, Q2Qc 0%Q).
+Definition ex_bs : val (K:=Qc) := Lit (Q2Qc (9#25)%Q, Q2Qc (3#5)%Q, Q2Qc (4#5)%Q).
+Definition ex_loss : val (K:=Qc) := Lit (Q2Qc (16#25)%Q, Q2Qc (3#5)%Q, Q2Qc (4#5)%Q).
+Definition ex_nol : val (K:=Qc) := Lit (Q2Qc 0%Q, Q2Qc 1%Q, Q2Qc 0%Q).
+Definition ex_get (r : res (circ (K:=Qc))) : circ (K:=Qc) := match r with Ok c => c | Err _ => new_circ 0 end.
+(* a 2-mode circuit with a herald on mode 1 *)
+Definition ex_sub1 :=
+  ex_get (do a <- op_bs qcops ex_e (new_circ 2) 0 None ex_bs ex_nol Rx; op_herald a 1 1 None).
+(* parent: lossy beam splitter on (0,2) of 3 modes, then ex_sub1 added at mode 1:
+   full modes [v0, v1, A, v2], ancilla A = 2, two loss modes *)
+Definition ex_parent :=
+  ex_get (do p <- op_bs qcops ex_e (new_circ 3) 0 (Some 2%Z) ex_bs ex_loss Rx; op_add qcops p ex_sub1 1 false).
+(* sub-circuit: 3 modes, lossy H beam splitter (0,1), beam splitter (1,2), one herald
+   entering on mode 0 and leaving on mode 2; two loss modes *)
+Definition ex_sub2 :=
+  ex_get (do a <- op_bs qcops ex_e (new_circ 3) 0 (Some 1%Z) ex_bs ex_loss Hv;
+          do b <- op_bs qcops ex_e a 1 (Some 2%Z) ex_bs ex_nol Rx; op_herald b 1 0 (Some 2%Z)).
+Definition ex_c' := ex_get (op_add qcops ex_parent ex_sub2 1 false).
+
+Lemma ex_wfh (c : circ (K:=Qc)) :
+  wf_check c = true -> nodupb (dkeys (c_in c)) = true -> nodupb (dkeys (c_out c)) = true -> WFH c.
+Proof. intros H1 H2 H3. split; [apply wf_check_sound, H1|split; apply nodupb_nodup; assumption]. Qed.
+
+(* the hypotheses of C02_add_wiring hold for: ex_sub2 added at user mode 1 of ex_parent
+   (full mode 1; the span v1, A, v2 contains the parent's ancilla A) *)
+Example C02_add_wiring_nonvacuous :
+  exists c' UP US,
+    WFH ex_parent /\ WFH ex_sub2 /\ 1 <= c_n ex_sub2 /\
+    Forall swnd (c_spec ex_parent) /\ Forall swnd (c_spec ex_sub2) /\
+    length (c_in ex_sub2) = length (c_out ex_sub2) /\
+    op_add qcops ex_parent ex_sub2 1 false = Ok c' /\
+    build qcops ex_e ex_parent = Ok (c_n ex_parent + 2, UP) /\
+    build qcops ex_e ex_sub2 = Ok (c_n ex_sub2 + 2, US) /\
+    c_n ex_parent = 4 /\ c_int ex_parent = [2] /\ mode_ok ex_parent (map_mode (c_int ex_parent) 1) = Ok 1 /\
+    c_n ex_sub2 = 3 /\ dkeys (c_in ex_sub2) = [0] /\ dkeys (c_out ex_sub2) = [2] /\
+    c_n c' = 5 /\ c_int c' = [3; 1] /\ c_in c' = [(3, 1); (1, 1)] /\ c_out c' = [(3, 1); (1, 1)].
+Proof.
+  destruct (op_add qcops ex_parent ex_sub2 1 false) as [c'|x] eqn:E; [|vm_compute in E; discriminate].
+  destruct (build_ok (o:=qcops) ex_e ex_parent) as (UP & EP); [vm_compute; repeat split|].
+  destruct (build_ok (o:=qcops) ex_e ex_sub2) as (US & ES); [vm_compute; repeat split|].
+  exists c', UP, US.
+  split; [apply ex_wfh; vm_compute; reflexivity|].
+  split; [apply ex_wfh; vm_compute; reflexivity|].
+  split; [vm_compute; lia|].
+  split; [apply swndb_spec_sound; vm_compute; reflexivity|].
+  split; [apply swndb_spec_sound; vm_compute; reflexivity|].
+  split; [reflexivity|].
+  split; [reflexivity|].
+  split; [exact EP|].
+  split; [exact ES|].
+  assert (Ec : c' = ex_c') by (unfold ex_c'; rewrite E; reflexivity). subst c'.
+  repeat split; vm_compute; reflexivity.
+Qed.
+
+(* the conclusion recomputed on this instance from a hand-written wiring (independent of the
+   proof): result modes [v0, A', v1, A, v2 | 2 loss modes of P | 2 loss modes of S];
+   old = 0,1,2,3,(4,5) |-> 0,2,3,4,(5,6); the new ancilla A' = loc 0 = 1;
+   phi_in  = 0,1,2,(3,4) |-> 1,2,4,(7,8)   (herald input 0 -> A', open inputs 1,2 -> v1,v2)
+   phi_out = 0,1,2,(3,4) |-> 2,4,1,(7,8)   (herald output 2 -> A', open outputs 0,1 -> v1,v2);
+   the old ancilla A (result mode 3) is in neither image: it passes straight through E *)
+Definition ex_mat (r : res (cstate (K:=Qc))) : mat (K:=Qc*Qc) :=
+  match r with Ok (_, U) => U | Err _ => mid (co qcops) end.
+Definition ex_dim (r : res (cstate (K:=Qc))) : nat := match r with Ok (n, _) => n | Err _ => 0 end.
+Fixpoint ex_idx (x : nat) (l : list nat) : option nat :=
+  match l with [] => None | y :: l' => if Nat.eqb x y then Some 0 else option_map S (ex_idx x l') end.
+Definition ex_transport (rows cols : list nat) (U : mat (K:=Qc*Qc)) : mat (K:=Qc*Qc) :=
+  fun x y => match ex_idx x rows, ex_idx y cols with Some i, Some j => U i j | _, _ => mid (co qcops) x y end.
+Example C02_add_wiring_computed :
+  let UP := ex_mat (build qcops ex_e ex_parent) in
+  let US := ex_mat (build qcops ex_e ex_sub2) in
+  let UR := ex_mat (build qcops ex_e ex_c') in
+  let old := [0; 2; 3; 4; 5; 6] in
+  let phi_in := [1; 2; 4; 7; 8] in
+  let phi_out := [2; 4; 1; 7; 8] in
+  ex_dim (build qcops ex_e ex_c') = 9 /\
+  forallb (fun i => forallb (fun j =>
+      keqb (co qcops) (UR i j)
+           (mmul (co qcops) 9 (ex_transport phi_out phi_in US) (ex_transport old old UP) i j))
+    (seq 0 9)) (seq 0 9) = true.
+Proof. vm_compute. split; reflexivity. Qed.
